@@ -1535,6 +1535,18 @@ func (interp *Interpreter) cfg(root *node, sc *scope, importPath, pkgName string
 
 		case caseClause:
 			sc = sc.pop()
+			if sn := n.anc.anc; sn.kind == switchStmt && len(n.child) > 1 {
+				// An untyped constant case expression is converted to the type of the switch tag.
+				tag := sn.child[len(sn.child)-2]
+				for _, c := range n.child[:len(n.child)-1] {
+					if tag.typ == nil || tag.typ.untyped || c.typ == nil || !c.typ.untyped || !c.rval.IsValid() {
+						continue
+					}
+					if err = check.convertUntyped(c, tag.typ); err != nil {
+						break
+					}
+				}
+			}
 
 		case commClauseDefault:
 			wireChild(n)
